@@ -106,8 +106,8 @@ func Families(tier string, seed int64) []*spec.Program {
 	sepBases := []*spec.Program{base}
 	for _, a := range Atlas() {
 		switch a.ID {
-		case "a_casts", "a_oneof", "a_embed", "a_embedn", "a_embednc", "a_msgs", "a_temporal", "a_custom", "a_empty", "a_embednoneof", "a_maps":
-			if thorough || a.ID == "a_casts" || a.ID == "a_oneof" || a.ID == "a_embednc" || a.ID == "a_msgs" || a.ID == "a_custom" {
+		case "a_scalars", "a_lists", "a_casts", "a_oneof", "a_embed", "a_embedn", "a_embednc", "a_msgs", "a_temporal", "a_custom", "a_empty", "a_embednoneof", "a_maps", "a_mapbytes", "a_valuenames":
+			if thorough || a.ID == "a_scalars" || a.ID == "a_lists" || a.ID == "a_mapbytes" || a.ID == "a_casts" || a.ID == "a_oneof" || a.ID == "a_embednc" || a.ID == "a_msgs" || a.ID == "a_custom" || a.ID == "a_temporal" {
 				sepBases = append(sepBases, a)
 			}
 		}
